@@ -430,6 +430,21 @@ func runC12(c *mon.Ctx) {
 				o.sharedPoints[i].MapToScalarField(&m)
 				mb := m.Bytes()
 				d.add(mb[:])
+				// group operations whose non-receiver operands are the shared points
+				var t1, t2 banderwagon.Element
+				priv := o.sharedPoints[(i+3)%len(o.sharedPoints)]
+				t1.Sub(&priv, &o.sharedPoints[i])
+				t2.Add(&o.sharedPoints[i], &o.sharedPoints[(i+1)%len(o.sharedPoints)])
+				t2.Sub(&t2, &o.sharedPoints[(i+1)%len(o.sharedPoints)])
+				t1.Add(&t1, &o.sharedPoints[i])
+				d.elem(&t1)
+				d.elem(&t2)
+				var t3 banderwagon.Element
+				t3.ScalarMul(&o.sharedPoints[i], &o.sharedScalars[i])
+				t3.Neg(&o.sharedPoints[i])
+				t3.Double(&o.sharedPoints[i])
+				d.elem(&t3)
+				d.addf("%v", o.sharedPoints[i].Equal(&t1))
 			}
 			ch := tr.ChallengeScalar([]byte("c"))
 			cb := ch.Bytes()
